@@ -1134,7 +1134,9 @@ impl BitVectorMut {
             return;
         }
 
-        self.n_ones += bits.count_ones() as usize;
+        // SAFETY: index + len <= n_bits is asserted above
+        let old = unsafe { self.get_bits_unchecked(index, len) };
+        self.n_ones = self.n_ones - old.count_ones() as usize + bits.count_ones() as usize;
 
         // let mask = if len == 64 {
         //     std::u64::MAX
